@@ -186,9 +186,9 @@ structure World where
   faults : List Nat := []         -- indices of bank calls that fail in this block
 deriving Repr, Inhabited
 
-/-- consult the fault oracle for the next bank call -/
-def World.nextCall (w : World) : Bool × World :=
-  (w.faults.contains w.callIdx, { w with callIdx := w.callIdx + 1 })
+/-- the fault oracle's verdict on the next bank call, and the counter advanced past it -/
+def World.faulty (w : World) : Bool := w.faults.contains w.callIdx
+def World.tick (w : World) : World := { w with callIdx := w.callIdx + 1 }
 
 /-- `findAccountState` (D8 repair: type and id); panics (none) on a nil account -/
 def findAccountState : List DState → Account → Nat → Outcome (Option Nat)
@@ -231,30 +231,24 @@ def prepareMain (e : Env) (w : World) : Outcome DecCoins :=
     | some c => .ok c
   else .ok coins
 
+/-- sweep the whole balance of `addr` into the main account (one bank call, unless there is
+    nothing to sweep); on an injected fault or a bank error nothing moves -/
+def sweep (e : Env) (w : World) (addr : String) : DecCoins × World :=
+  if (w.bank.balance addr).length > 0 then
+    if w.faulty then ([], w.tick) else
+    match w.bank.send addr e.mainAddr (w.bank.balance addr) with
+    | none => ([], w.tick)
+    | some b => (toDec (w.bank.balance addr), { w.tick with bank := b })
+  else ([], w)
+
 /-- `prepareCoinToDistributeForNotMainAccount` -/
 def prepareNotMain (e : Env) (w : World) (src : Account) : Outcome (DecCoins × World) :=
   let swept : Outcome (DecCoins × World) :=
     if src.type = tModule then
       match e.modAddr? src.id with
       | none => .panic          -- GetModuleAccount(...) == nil → nil dereference
-      | some addr =>
-        let coins := w.bank.balance addr
-        if coins.length > 0 then
-          let (fail, w1) := w.nextCall
-          if fail then .ok ([], w1) else
-          match w1.bank.send addr e.mainAddr coins with
-          | none => .ok ([], w1)
-          | some b => .ok (toDec coins, { w1 with bank := b })
-        else .ok ([], w)
-    else if src.type ≠ tInternal then
-      let coins := w.bank.balance src.id
-      if coins.length > 0 then
-        let (fail, w1) := w.nextCall
-        if fail then .ok ([], w1) else
-        match w1.bank.send src.id e.mainAddr coins with
-        | none => .ok ([], w1)
-        | some b => .ok (toDec coins, { w1 with bank := b })
-      else .ok ([], w)
+      | some addr => .ok (sweep e w addr)
+    else if src.type ≠ tInternal then .ok (sweep e w src.id)
     else .ok ([], w)
   match swept with
   | .ok (c, w1) =>
@@ -265,21 +259,34 @@ def prepareNotMain (e : Env) (w : World) (src : Account) : Outcome (DecCoins × 
   | .err => .err
   | .panic => .panic
 
-/-- `PrepareCoinsToDistribute` (D6 repair: the MAIN source is evaluated first) -/
-def prepareCoins (e : Env) (w : World) (sources : List Account) : Outcome (DecCoins × World) := do
-  let mut all : DecCoins := []
-  for s in sources do
+/-- first pass of `PrepareCoinsToDistribute` (D6 repair): MAIN sources are evaluated before any sweep -/
+def prepMainPart (e : Env) (w : World) : List Account → DecCoins → Outcome DecCoins
+  | [], all => .ok all
+  | s :: rest, all =>
     if s.type = tMain then
-      let c ← prepareMain e w
-      all := CoinList.add all c
-  let mut w := w
-  for s in sources do
+      match prepareMain e w with
+      | .ok c => prepMainPart e w rest (CoinList.add all c)
+      | .err => .err
+      | .panic => .panic
+    else prepMainPart e w rest all
+
+/-- second pass: every other source is swept / its remains re-queued, in list order -/
+def prepOthersPart (e : Env) : World → List Account → DecCoins → Outcome (DecCoins × World)
+  | w, [], all => .ok (all, w)
+  | w, s :: rest, all =>
     if s.type ≠ tMain then
-      let (c, w1) ← prepareNotMain e w s
-      w := w1
-      if c.length ≠ 0 then
-        all := CoinList.add all c
-  return (all, w)
+      match prepareNotMain e w s with
+      | .ok (c, w1) => prepOthersPart e w1 rest (if c.length ≠ 0 then CoinList.add all c else all)
+      | .err => .err
+      | .panic => .panic
+    else prepOthersPart e w rest all
+
+/-- `PrepareCoinsToDistribute` -/
+def prepareCoins (e : Env) (w : World) (sources : List Account) : Outcome (DecCoins × World) :=
+  match prepMainPart e w sources [] with
+  | .ok all => prepOthersPart e w sources all
+  | .err => .err
+  | .panic => .panic
 
 /-- `calculatePercentage` -/
 def calcPercentage (share : Int) (x : DecCoins) : DecCoins :=
@@ -349,31 +356,29 @@ def payoutOne (e : Env) (w : World) (s : DState) : Outcome (DState × World) :=
   | none => .panic
   | some a =>
     if a.type ≠ tInternal && anyGTE1 s.remains then
-      let (toSend, change) := truncateDecimal s.remains
+      let toSend := (truncateDecimal s.remains).1
+      let change := (truncateDecimal s.remains).2
       if s.burn then
-        let (fail, w1) := w.nextCall
-        if fail then .ok (s, w1) else
+        if w.faulty then .ok (s, w.tick) else
         if !((e.modules.find? (·.name = mainModule)).map (·.burner)).getD false then .panic else
-        match w1.bank.burn e.mainAddr toSend with
-        | none => .ok (s, w1)
-        | some b => .ok ({ s with remains := change }, { w1 with bank := b })
+        match w.bank.burn e.mainAddr toSend with
+        | none => .ok (s, w.tick)
+        | some b => .ok ({ s with remains := change }, { w.tick with bank := b })
       else if a.type = tModule then
-        let (fail, w1) := w.nextCall
-        if fail then .ok (s, w1) else
+        if w.faulty then .ok (s, w.tick) else
         match e.modAddr? a.id with
         | none => .panic
         | some addr =>
-          match w1.bank.send e.mainAddr addr toSend with
-          | none => .ok (s, w1)
-          | some b => .ok ({ s with remains := change }, { w1 with bank := b })
+          match w.bank.send e.mainAddr addr toSend with
+          | none => .ok (s, w.tick)
+          | some b => .ok ({ s with remains := change }, { w.tick with bank := b })
       else
         if !a.bech32Ok then .ok (s, w) else
-        let (fail, w1) := w.nextCall
-        if fail then .ok (s, w1) else
-        if e.blocked.contains a.id then .ok (s, w1) else
-        match w1.bank.send e.mainAddr a.id toSend with
-        | none => .ok (s, w1)
-        | some b => .ok ({ s with remains := change }, { w1 with bank := b })
+        if w.faulty then .ok (s, w.tick) else
+        if e.blocked.contains a.id then .ok (s, w.tick) else
+        match w.bank.send e.mainAddr a.id toSend with
+        | none => .ok (s, w.tick)
+        | some b => .ok ({ s with remains := change }, { w.tick with bank := b })
     else .ok (s, w)
 
 /-- store write: `SetState` per state in list order, store kept sorted by key -/
@@ -387,23 +392,40 @@ structure BlockRes where
   events : List Event
 deriving Inhabited
 
+/-- the sub-distributor loop of `BeginBlocker` -/
+def subsLoop (e : Env) : List SubD → World → List Event → Outcome (World × List Event)
+  | [], w, evs => .ok (w, evs)
+  | s :: rest, w, evs =>
+    match prepareCoins e w (s.sources.filterMap id) with
+    | .ok (coins, w1) =>
+      if !isZero coins then
+        match startDistribution w1.states coins s with
+        | .ok (sts, ev) => subsLoop e rest { w1 with states := sts } (evs ++ ev)
+        | .err => .err
+        | .panic => .panic
+      else subsLoop e rest w1 evs
+    | .err => .err
+    | .panic => .panic
+
+/-- `SendCoinsFromStates`: every state in list order; the stored state is what `payoutOne` returns -/
+def payoutLoop (e : Env) : List DState → World → List DState → Outcome (World × List DState)
+  | [], w, stored => .ok (w, stored)
+  | s :: rest, w, stored =>
+    match payoutOne e w s with
+    | .ok (s', w1) => payoutLoop e rest w1 (stored ++ [s'])
+    | .err => .err
+    | .panic => .panic
+
 /-- `BeginBlocker` -/
-def beginBlock (e : Env) (subs : List SubD) (w0 : World) (faults : List Nat) : Outcome BlockRes := do
-  let mut w : World := { w0 with callIdx := 0, faults := faults }
-  let mut evs : List Event := []
-  for s in subs do
-    let (coins, w1) ← prepareCoins e w (s.sources.filterMap id)
-    w := w1
-    if !isZero coins then
-      let (sts, ev) ← startDistribution w.states coins s
-      w := { w with states := sts }
-      evs := evs ++ ev
-  let mut stored : List DState := []
-  for s in w.states do
-    let (s', w1) ← payoutOne e w s
-    w := w1
-    stored := stored ++ [s']
-  return { world := { w with states := storeStates stored }, events := evs }
+def beginBlock (e : Env) (subs : List SubD) (w0 : World) (faults : List Nat) : Outcome BlockRes :=
+  match subsLoop e subs { w0 with callIdx := 0, faults := faults } [] with
+  | .ok (w, evs) =>
+    match payoutLoop e w.states w [] with
+    | .ok (w2, stored) => .ok { world := { w2 with states := storeStates stored }, events := evs }
+    | .err => .err
+    | .panic => .panic
+  | .err => .err
+  | .panic => .panic
 
 /-! ## invariants as decidable predicates (the two registered invariants) -/
 
